@@ -422,7 +422,8 @@ fn trace_effects(log: &str, dir: &Path) -> Vec<String> {
     let mut eff: Vec<String> = vec![];
     let d = dir.to_string_lossy().to_string();
     for l in log.lines() {
-        let l = match l.find(' ') { Some(p) if l[..p].chars().all(|c| c.is_ascii_digit()) => &l[p + 1..], _ => l };
+        // `strace -f -o` prefixes every line with the pid, padded with spaces
+        let l = match l.find(' ') { Some(p) if l[..p].chars().all(|c| c.is_ascii_digit()) => l[p + 1..].trim_start(), _ => l.trim_start() };
         let name = l.split('(').next().unwrap_or("");
         if !["open", "openat", "creat", "unlink", "unlinkat", "rename", "renameat", "renameat2", "truncate", "mkdir", "mkdirat", "rmdir", "link", "linkat", "symlink", "symlinkat"].contains(&name) { continue; }
         if l.contains("= -1 ") && name != "openat" && name != "open" { continue; }
